@@ -287,7 +287,6 @@ func c18JudgeWakeup(v *c18V, log *c18Log, c c18Case) {
 func c18LimitGen(timed bool) func(rt *rapid.T) c18Case {
 	return func(rt *rapid.T) c18Case {
 		c := c18Case{N: rapid.SampledFrom([]int{1, 1, 2, 2, 3}).Draw(rt, "n")}
-		defer func() { c18DrawInstances(rt, c.Gs) }()
 		c.Gs = c18GenGs(rt, 4, func(rt *rapid.T, burst bool) c18Op {
 			op := c18Op{K: rapid.SampledFrom([]string{"borrow", "borrow", "borrow", "try", "try", "ret"}).Draw(rt, "k")}
 			if op.K != "ret" {
@@ -301,6 +300,7 @@ func c18LimitGen(timed bool) func(rt *rapid.T) c18Case {
 			}
 			return op
 		})
+		c18DrawInstances(rt, c.Gs)
 		return c
 	}
 }
